@@ -395,12 +395,16 @@ func matchGuard(f Fact, g Guard) bool {
 
 // guardsHeld returns the names of the guards of gs not established at block b.
 func guardsMissing(fn *ssa.Function, b *ssa.BasicBlock, gs []Guard) []string {
-	facts := factsAt(fn, b)
+	return guardsMissingFacts(fn, factsAt(fn, b), gs)
+}
+
+// guardsMissingFacts: the same for a given set of branch outcomes (those of an edge, say).
+func guardsMissingFacts(fn *ssa.Function, facts []Fact, gs []Guard) []string {
 	var missing []string
 	for _, g := range gs {
 		found := false
 		for _, f := range facts {
-			if matchGuard(f, g) {
+			if matchGuard(f, g) || (f.Holds && impliedBy(fn, f.Atom, g, 0)) {
 				found = true
 				break
 			}
@@ -410,6 +414,67 @@ func guardsMissing(fn *ssa.Function, b *ssa.BasicBlock, gs []Guard) []string {
 		}
 	}
 	return missing
+}
+
+// impliedBy: the boolean value v being true implies guard g. v is a conjunction kept in a local
+// (`ok := a && b`, a phi of false and the last conjunct): on every way into the phi either the value is false, or g is
+// established on that way, or the incoming value implies g itself.
+func impliedBy(fn *ssa.Function, v ssa.Value, g Guard, depth int) bool {
+	if depth > 4 || v == nil {
+		return false
+	}
+	atom, pol := condAtom(v)
+	if !pol {
+		return false
+	}
+	if b, isConst := constBool(atom); isConst {
+		return !b
+	}
+	if _, isPhi := atom.(*ssa.Phi); !isPhi {
+		return matchGuard(Fact{Atom: atom, Holds: true}, g)
+	}
+	phi := atom.(*ssa.Phi)
+	for i, e := range phi.Edges {
+		if b, isConst := constBool(e); isConst && !b {
+			continue
+		}
+		okEdge := false
+		for _, f := range factsOnEdge(fn, phi.Block().Preds[i], phi.Block()) {
+			if matchGuard(f, g) {
+				okEdge = true
+				break
+			}
+		}
+		if !okEdge && !impliedBy(fn, e, g, depth+1) {
+			return false
+		}
+	}
+	return true
+}
+
+// flagImplies: the boolean value passed as a flag is true only when all the guards hold: a constant false, a constant
+// true at a point where the guards are established, or a conjunction that implies them.
+func flagImplies(fn *ssa.Function, at *ssa.BasicBlock, flag ssa.Value, gs []Guard) []string {
+	if b, isConst := constBool(flag); isConst && !b {
+		return nil
+	}
+	missing := guardsMissing(fn, at, gs)
+	if len(missing) == 0 {
+		return nil
+	}
+	var still []string
+	for _, g := range gs {
+		need := false
+		for _, m := range missing {
+			if m == g.Name {
+				need = true
+			}
+		}
+		if need && !impliedBy(fn, flag, g, 0) {
+			still = append(still, g.Name)
+		}
+	}
+	return still
 }
 
 // ---- returns ----
